@@ -13,7 +13,7 @@ Definition mk_ans rc tc an ropt qopt qoptcnt : ansinfo :=
   {| a_rcode := rc; a_tc := tc; a_ancount := an; a_resp_opt := ropt; a_req_opt := qopt; a_req_optcnt := qoptcnt |}.
 
 Definition mkcfg (fx : fixes) (max_tries : nat) : config :=
-  {| cf_fix := fx; cf_max_tries := max_tries; cf_igntc := false; cf_nocheckresp := false; cf_dns0x20 := false |}.
+  {| cf_fix := fx; cf_tries := max_tries; cf_nservers := 1; cf_igntc := false; cf_nocheckresp := false; cf_dns0x20 := false |}.
 
 Definition without_unlink := {| fx_unlink := false; fx_search := true; fx_revalidate := true; fx_connread := true; fx_qidearly := true |}.
 Definition without_search := {| fx_unlink := true; fx_search := false; fx_revalidate := true; fx_connread := true; fx_qidearly := true |}.
